@@ -589,7 +589,9 @@ Error BaseBuilder::run_passes() {
     return Error::kOk;
   }
 
-  ErrorHandler* prev = error_handler();
+  // Only an emitter-owned error handler is restored explicitly - when the handler is inherited from CodeHolder, calling
+  // `set_error_handler(prev)` would make it emitter-owned, and it would then survive detaching from CodeHolder.
+  ErrorHandler* prev = has_own_error_handler() ? error_handler() : nullptr;
   PostponedErrorHandler postponed;
 
   Error err = Error::kOk;
